@@ -274,6 +274,13 @@ func (h *History) CheckC12(res *Result) []Violation {
 			gracefulBefore = true
 		}
 	}
+	// ... unless a destination or the DLQ had already stopped answering (a scripted hold that was
+	// engaged before the force stop was issued): that run cannot drain, only the force stop ends it.
+	for _, e := range h.Events[:call.CallIdx] {
+		if e.Kind == EvNote && e.Info == "hold" {
+			gracefulBefore = false
+		}
+	}
 	stoppedGracefully := strings.HasPrefix(term.Info, "UserStopped") || strings.HasPrefix(term.Info, "SystemStopped")
 	// The run had already ended by itself when the force stop was issued (its cleanup had begun
 	// to write the follow-up status): the stop hits the dead run of the recovery window. Keyed
